@@ -495,10 +495,80 @@ def _run(task):
     return task[0](task[1])
 
 
+def _placed(name, which):
+    """A family mesh placed in general position: coordinates are no longer exact, vertices that lie in a common
+    plane do so only up to rounding noise (what a rotated, scaled real-world part looks like)."""
+    V, F = mesh_family()[name]
+    V = np.asarray(V, dtype=float)
+    c, s_ = 0.6, 0.8
+    Rz = np.array([[c, -s_, 0], [s_, c, 0], [0, 0, 1.0]])
+    Rx = np.array([[1.0, 0, 0], [0, 5 / 13, -12 / 13], [0, 12 / 13, 5 / 13]])
+    R = Rz @ Rx
+    scale, shift = [(100.0 / 3.0, [1 / 3, -20 / 7, 11.1]), (1e3 / 7.0, [-1e3, 2e3 / 3, 0.1])][which]
+    return (V @ R.T) * scale + np.array(shift), np.asarray(F)
+
+
+def _w_noisy(task):
+    """Planes through the faces of a mesh in general position: the vertices of that face (and of coplanar ones)
+    are on the plane only up to rounding.  Opposite slices must still partition the surface, capped halves the volume."""
+    import trimesh
+
+    name, which = task
+    t = harness.Tally()
+    V, F = _placed(name, which)
+    m = trimesh.Trimesh(V.copy(), F.copy(), process=False)
+    area = float(np.linalg.norm(np.cross(V[F][:, 1] - V[F][:, 0], V[F][:, 2] - V[F][:, 0]), axis=1).sum() / 2)
+    tri = V[F]
+    vol = float(np.einsum("ij,ij->i", tri[:, 0], np.cross(tri[:, 1], tri[:, 2])).sum() / 6)
+    seen = set()
+    for fi, f in enumerate(F):
+        nrm = np.cross(V[f[1]] - V[f[0]], V[f[2]] - V[f[0]])
+        nrm = nrm / np.linalg.norm(nrm)
+        origin = V[f[0]]
+        key = tuple(np.round(np.append(nrm * np.sign(nrm[np.argmax(np.abs(nrm))]), abs(np.dot(nrm, origin))), 6))
+        if key in seen:
+            continue
+        seen.add(key)
+        case = {"family": "noisy", "mesh": name, "placement": which, "face": int(fi)}
+        t.evaluations += 1
+        t.nontrivial_count += 1
+        parts = []
+        try:
+            for sgn in (1, -1):
+                sl = m.slice_plane(plane_origin=origin, plane_normal=sgn * nrm, cap=False)
+                parts.append(0.0 if sl is None or len(sl.faces) == 0 else float(sl.area))
+        except Exception as e:
+            t.violation(f"slice_plane raises {type(e).__name__} [mesh in general position; plane of one of its faces]", case, {"exc": repr(e)[:200]})
+            continue
+        if abs(parts[0] + parts[1] - area) > 1e-9 * area:
+            t.violation("slice_plane: areas of the two opposite slices do not add up [mesh in general position; plane of one of its faces]", case, {"got": parts, "want": area})
+            continue
+        if name in WATERTIGHT and name in CONVEX:
+            vols = []
+            try:
+                for sgn in (1, -1):
+                    sl = m.slice_plane(plane_origin=origin, plane_normal=sgn * nrm, cap=True)
+                    if sl is None or len(sl.faces) == 0:
+                        vols.append(0.0)
+                    else:
+                        tt = np.asarray(sl.triangles)
+                        vols.append(float(np.einsum("ij,ij->i", tt[:, 0], np.cross(tt[:, 1], tt[:, 2])).sum() / 6))
+            except Exception as e:
+                t.violation(f"slice_plane(cap=True) raises {type(e).__name__} [mesh in general position; plane of one of its faces]", case, {"exc": repr(e)[:200]})
+                continue
+            if abs(vols[0] + vols[1] - vol) > 1e-7 * abs(vol):
+                t.violation("slice_plane(cap=True): volumes of the two halves do not add up [mesh in general position; plane of one of its faces]", case, {"got": vols, "want": vol})
+    t.sample({"family": "noisy", "mesh": name, "placement": which, "planes": len(seen)}, limit=1)
+    return t
+
+
 def replay(case):
     t = harness.Tally()
     if case.get("family") == "selftest":
         return [(k, d) for k, c, d in _selftest(None).violations]
+    if case.get("family") == "noisy":
+        tt = _w_noisy((case["mesh"], case["placement"]))
+        return [(k, d) for k, c, d in tt.violations if c.get("face") == case["face"]]
     V, F = mesh_family()[case["mesh"]]
     V = np.asarray(V, dtype=float)
     F = np.asarray(F)
@@ -516,6 +586,7 @@ def main(run):
     tier = run.tier
     fam = mesh_family()
     tasks = [(_selftest, None)] + [(_w, (name, n, tier)) for name in fam for n in DIRECTIONS]
+    tasks += [(_w_noisy, (name, which)) for name in fam for which in (0, 1)]
     run.log(f"{len(tasks)} tasks")
     res = harness.pmap(_run, tasks)
     run.merge(res)
@@ -523,6 +594,6 @@ def main(run):
         "exhaustive": True,
         "meshes": list(fam),
         "directions": len(DIRECTIONS),
-        "rule": "7 lattice meshes x 15 directions x every vertex height and points strictly between consecutive vertex heights (+ one outside); exact Fraction side classification; mesh_plane / section / section_multiplane (non-unit normals) / local_faces / slice_plane both sides / capped slices (all engines in thorough). Non-trivial = plane properly crosses at least one triangle",
+        "rule": "7 lattice meshes x 15 directions x every vertex height and points strictly between consecutive vertex heights (+ one outside); exact Fraction side classification; mesh_plane / section / section_multiplane (non-unit normals) / local_faces / slice_plane both sides / capped slices (all engines in thorough); every family mesh in two general-position placements (rotation with rational sines, scale, shift: coordinates inexact) x the plane of every one of its faces: opposite slices partition the area, capped halves of convex solids the volume. Non-trivial = plane properly crosses at least one triangle",
     }
     return run.finish(cov, assumptions=["coverage and closed-loop clauses are only demanded when the plane contains no mesh edge / no vertex", "on-surface distance by brute force over all triangles, tolerance 1e-9 x scale"])
